@@ -2,7 +2,7 @@
    They exist so that the length rule of SCPI_ErrorPushEx, the description lookup and the
    SYST:ERR? wrapper are evaluated by extracted Gallina code, not by hand-written OCaml. *)
 From Coq Require Import Bool List NArith ZArith Lia.
-From M Require LexModel FmtModel HeapModel ErrQueue ExprModel Generated.
+From M Require LexModel FmtModel FifoProof HeapProof QStatic ErrQueue ExprModel Generated.
 Import ListNotations.
 Local Open Scope Z_scope.
 
@@ -18,7 +18,7 @@ Fixpoint cstrz (n:nat) (l:list Z) : list Z :=
 (* SCPI_ErrorPushEx, malloc configuration: info_len = 0 means strnlen(info, 255) *)
 Definition eq_push_ex (s:ErrQueue.equeue) (code:Z) (info:option (list Z)) (info_len:Z) (aok:bool) : ErrQueue.equeue * bool * bool :=
   let kept := match info with
-              | Some t => let n := if info_len =? 0 then HeapModel.strnlen_l t 255 else info_len in Some (cstrz (Z.to_nat n) t)
+              | Some t => let n := if info_len =? 0 then HeapProof.strnlen_l t 255 else info_len in Some (cstrz (Z.to_nat n) t)
               | None => None end in
   ErrQueue.push s code kept aok.
 Definition eq_init (cap:Z) : ErrQueue.equeue :=
@@ -29,9 +29,13 @@ Definition eq_count (s:ErrQueue.equeue) : Z := FifoProof.fcount _ (ErrQueue.q s)
 Definition eq_systerr (s:ErrQueue.equeue) : ErrQueue.equeue * list Z :=
   let '(s1, (code, info), _) := ErrQueue.pop s in
   (s1, FmtModel.result_error code (descz code) info Generated.gen_desc_max).
-(* static heap configuration *)
-Definition hq_systerr (s:HeapModel.equeue) : HeapModel.equeue * list Z :=
-  let '(code, txt, s1) := HeapModel.error_pop_release s in
+(* static heap configuration: the queue over the string heap is the one QStatic.v proves things about *)
+Definition hq_init (qcap heap:Z) : QStatic.equeue := {| QStatic.q := QStatic.fifo_init qcap; QStatic.hp := HeapProof.heap_init heap |}.
+Definition hq_push_ex (s:QStatic.equeue) (code:Z) (info:option (list Z)) (info_len:Z) : QStatic.equeue :=
+  QStatic.qstep s (QStatic.push_op code info info_len).
+Definition hq_count (s:QStatic.equeue) : Z := FifoProof.fcount _ (QStatic.q s).
+Definition hq_systerr (s:QStatic.equeue) : QStatic.equeue * list Z :=
+  let '(code, txt, s1) := QStatic.error_pop_release s in
   let info := match txt with None => None | Some (p1, None) => Some p1 | Some (p1, Some p2) => Some (p1 ++ p2) end in
   (s1, FmtModel.result_error code (descz code) info Generated.gen_desc_max).
 
